@@ -56,7 +56,14 @@ mod acceptor;
 mod broker;
 mod bus_listener;
 mod conn;
+#[cfg(not(kani))]
 mod conn_id;
+#[cfg(kani)]
+#[path = "/verif/harness/broker/conn_id_model.rs"]
+mod conn_id;
+#[cfg(kani)]
+#[path = "conn_id.rs"]
+mod conn_id_real;
 #[cfg(feature = "introspection")]
 mod introspection_database;
 mod serial_map;
@@ -68,3 +75,7 @@ pub use aldrin_core as core;
 pub use broker::BrokerStatistics;
 pub use broker::{Broker, BrokerHandle, BrokerShutdown};
 pub use conn::{Connection, ConnectionError, ConnectionHandle};
+
+#[cfg(kani)]
+#[path = "/verif/harness/broker/mod.rs"]
+mod verif;
